@@ -924,11 +924,26 @@ mod superimpose_style_sections {
         true_color: bool,
         null_syntect_style: SyntectStyle,
     ) -> Vec<(Style, String)> {
+        let diff_chars = explode(diff_style_sections);
+        let mut syntax_chars = explode(syntax_style_sections);
+        // Both annotations must describe the same text. If they do not (escape sequences that
+        // read differently in the raw and in the stripped line), show the line without syntax
+        // highlighting instead of aborting.
+        if syntax_chars
+            .iter()
+            .zip(&diff_chars)
+            .any(|((_, c1), (_, c2))| c1 != c2)
+        {
+            syntax_chars = diff_chars
+                .iter()
+                .map(|(_, c)| (null_syntect_style, *c))
+                .collect();
+        }
         coalesce(
             superimpose(
-                explode(syntax_style_sections)
+                syntax_chars
                     .iter()
-                    .zip(explode(diff_style_sections))
+                    .zip(diff_chars)
                     .collect::<Vec<(&(SyntectStyle, char), (Style, char))>>(),
             ),
             true_color,
